@@ -25,6 +25,9 @@ pub enum Report {
     Max,
     HalfMax,
     Plus(i8),
+    /// a fickle iterator: the answers of the first, second and all later len() / size_hint()
+    /// calls; codes 0 = truth, 1 = what the array expects, 2 = zero, 3 = usize::MAX, 4 = truth + 1, 5 = truth - 1
+    Seq(u8, u8, u8),
 }
 
 #[derive(Serialize, Deserialize, Clone, Debug, PartialEq)]
@@ -80,10 +83,11 @@ pub struct FIter<E> {
     items: VecDeque<E>,
     report: Report,
     expected: usize,
+    asked: std::cell::Cell<u32>,
 }
 impl<E> FIter<E> {
     pub fn new(items: Vec<E>, report: Report, expected: usize) -> FInto<E> {
-        FInto(FIter { items: items.into(), report, expected })
+        FInto(FIter { items: items.into(), report, expected, asked: std::cell::Cell::new(0) })
     }
     fn reported(&self) -> usize {
         match self.report {
@@ -93,6 +97,18 @@ impl<E> FIter<E> {
             Report::Max => usize::MAX,
             Report::HalfMax => usize::MAX / 2,
             Report::Plus(d) => (self.items.len() as i64 + d as i64).max(0) as usize,
+            Report::Seq(a, b, c) => {
+                let n = self.asked.get();
+                self.asked.set(n.saturating_add(1));
+                match [a, b, c][n.min(2) as usize] % 6 {
+                    0 => self.items.len(),
+                    1 => self.expected,
+                    2 => 0,
+                    3 => usize::MAX,
+                    4 => self.items.len() + 1,
+                    _ => self.items.len().saturating_sub(1),
+                }
+            }
         }
     }
 }
@@ -237,7 +253,7 @@ fn run_op<E: Elem + Clone + Default + Ord + Hash>(t: &mut TooDee<E>, k: &FaultCa
             let n = (expected as i64 + *yield_delta as i64).max(0) as usize;
             let v = mint_vec::<E>(n);
             supplied.extend(v.iter().map(|e| e.id()));
-            let it = FInto(FIter { items: v.into(), report: *report, expected });
+            let it = FInto(FIter { items: v.into(), report: *report, expected, asked: std::cell::Cell::new(0) });
             let at = (*at as usize).min(dim);
             elem::arm(fuse);
             let res = catch(move || match (*axis, *push) {
@@ -461,7 +477,12 @@ fn op_tag(op: &FOp) -> String {
 
 fn run_fault<E: Elem + Clone + Default + Ord + Hash>(k: &FaultCase, ctx: &mut Ctx) -> Verdict {
     if E::ZST {
-        if let FOp::Insert { report: Report::Max | Report::HalfMax, .. } = k.op {
+        let enormous = match k.op {
+            FOp::Insert { report: Report::Max | Report::HalfMax, .. } => true,
+            FOp::Insert { report: Report::Seq(a, b, c), .. } => [a, b, c].iter().any(|x| x % 6 == 3),
+            _ => false,
+        };
+        if enormous {
             // a zero-sized element type with an enormous claimed length would loop ~2^63 times
             ctx.class("skipped-zst-enormous");
             return Ok(());
@@ -568,7 +589,8 @@ fn all_ops(cols: u8, rows: u8) -> Vec<FOp> {
         v.push(FOp::Insert { axis, push: true, at: 0, yield_delta: 0, report: Report::True });
         // lying iterators (at the middle index)
         let mid = dim / 2;
-        for (yd, rep) in [(-1, Report::Expected), (1, Report::Expected), (3, Report::Expected), (0, Report::Plus(-1)), (0, Report::Plus(1)), (0, Report::Plus(3)), (0, Report::Zero), (0, Report::Max), (0, Report::HalfMax), (-1, Report::True), (1, Report::True)] {
+        for (yd, rep) in [(-1, Report::Expected), (1, Report::Expected), (3, Report::Expected), (0, Report::Plus(-1)), (0, Report::Plus(1)), (0, Report::Plus(3)), (0, Report::Zero), (0, Report::Max), (0, Report::HalfMax), (-1, Report::True), (1, Report::True),
+            (0, Report::Seq(2, 0, 0)), (0, Report::Seq(2, 1, 1)), (0, Report::Seq(0, 2, 2)), (0, Report::Seq(0, 0, 2)), (0, Report::Seq(3, 0, 0)), (0, Report::Seq(0, 3, 0)), (0, Report::Seq(4, 0, 0)), (0, Report::Seq(0, 4, 0)), (0, Report::Seq(5, 0, 0)), (0, Report::Seq(0, 5, 5)), (1, Report::Seq(1, 0, 0)), (-1, Report::Seq(0, 1, 1))] {
             v.push(FOp::Insert { axis, push: false, at: mid, yield_delta: yd, report: rep });
             v.push(FOp::Insert { axis, push: true, at: 0, yield_delta: yd, report: rep });
         }
@@ -604,7 +626,7 @@ impl Prop for C11 {
     }
     fn enumerate(tier: Tier, emit: &mut dyn FnMut(FaultCase)) {
         let max = if tier == Tier::Quick { 4u8 } else { 5u8 };
-        for elem in [ElemKind::Tr, ElemKind::Bx, ElemKind::Zs] {
+        for elem in [ElemKind::Tr, ElemKind::Bx, ElemKind::Zs, ElemKind::Nd] {
             for cols in 0..=max {
                 for rows in 0..=max {
                     if (cols == 0) != (rows == 0) {
@@ -620,7 +642,7 @@ impl Prop for C11 {
     }
     fn strategy(_tier: Tier) -> BoxedStrategy<FaultCase> {
         let axis = || prop_oneof![Just(Axis::Row), Just(Axis::Col)];
-        let report = prop_oneof![6 => Just(Report::True), 2 => Just(Report::Expected), 1 => Just(Report::Zero), 1 => Just(Report::Max), 1 => Just(Report::HalfMax), 2 => (-2i8..4).prop_map(Report::Plus)];
+        let report = prop_oneof![6 => Just(Report::True), 2 => Just(Report::Expected), 1 => Just(Report::Zero), 1 => Just(Report::Max), 1 => Just(Report::HalfMax), 2 => (-2i8..4).prop_map(Report::Plus), 3 => (0u8..6, 0u8..6, 0u8..6).prop_map(|(a, b, c)| Report::Seq(a, b, c))];
         let op = prop_oneof![
             2 => (-2i8..3, -2i8..3).prop_map(|(dc, dr)| FOp::CloneFromOther { dc, dr }),
             1 => Just(FOp::New), 1 => Just(FOp::Init), 1 => Just(FOp::Fill), 1 => Just(FOp::ViewFill), 1 => Just(FOp::CloneArr),
@@ -630,7 +652,7 @@ impl Prop for C11 {
             8 => (axis(), prop::bool::weighted(0.25), 0u8..14, 0u8..6, 0u8..6).prop_map(|(axis, pop, at, front, back)| FOp::Remove { axis, pop, at, front, back }),
             8 => (0u8..11, 0u8..14).prop_map(|(form, line)| FOp::Sort { form, line }),
         ];
-        (proptest::sample::select(vec![ElemKind::Tr, ElemKind::Tr, ElemKind::Bx, ElemKind::Zs]), 0u8..=12, 0u8..=12, any::<bool>(), op, prop_oneof![1 => Just(Fuse::None), 9 => any::<u16>().prop_map(Fuse::Frac)])
+        (proptest::sample::select(vec![ElemKind::Tr, ElemKind::Tr, ElemKind::Bx, ElemKind::Zs, ElemKind::Nd]), 0u8..=12, 0u8..=12, any::<bool>(), op, prop_oneof![1 => Just(Fuse::None), 9 => any::<u16>().prop_map(Fuse::Frac)])
             .prop_map(|(elem, cols, rows, exact_cap, op, fuse)| {
                 let (cols, rows) = if cols == 0 || rows == 0 { (0, 0) } else { (cols, rows) };
                 FaultCase { elem, cols, rows, exact_cap, op, fuse }
@@ -654,7 +676,8 @@ impl Prop for C11 {
     }
     fn execute(k: &FaultCase, ctx: &mut Ctx) -> Verdict {
         match k.elem {
-            ElemKind::Tr | ElemKind::U32 | ElemKind::U128 | ElemKind::B3 => run_fault::<Tr>(k, ctx),
+            ElemKind::Tr | ElemKind::U32 | ElemKind::U128 | ElemKind::B3 | ElemKind::W40 => run_fault::<Tr>(k, ctx),
+            ElemKind::Nd => run_fault::<crate::elem::Nd>(k, ctx),
             ElemKind::Bx => run_fault::<Bx>(k, ctx),
             ElemKind::Zs => run_fault::<Zs>(k, ctx),
         }
@@ -858,7 +881,17 @@ impl Prop for C12 {
     }
     fn enumerate(_tier: Tier, emit: &mut dyn FnMut(LeakCase)) {
         use Leakable::*;
-        for elem in [ElemKind::Tr, ElemKind::Bx, ElemKind::Zs, ElemKind::U32] {
+        // arrays of more than a megabyte: drains of the first, a middle and the last line
+        for (elem, cols, rows) in [(ElemKind::W40, 180u8, 170u8), (ElemKind::U128, 255, 255), (ElemKind::W40, 255, 110)] {
+            for what in [DrainRow, DrainCol, PopRow, PopCol] {
+                for at in [0u8, 7, 100, 254] {
+                    for (front, back) in [(0u8, 0u8), (2, 1)] {
+                        emit(LeakCase { elem, cols, rows, exact_cap: at % 2 == 0, what, at, front, back });
+                    }
+                }
+            }
+        }
+        for elem in [ElemKind::Tr, ElemKind::Bx, ElemKind::Zs, ElemKind::U32, ElemKind::W40] {
             for cols in 0u8..=5 {
                 for rows in 0u8..=5 {
                     if (cols == 0) != (rows == 0) {
@@ -888,12 +921,15 @@ impl Prop for C12 {
     }
     fn strategy(_tier: Tier) -> BoxedStrategy<LeakCase> {
         use Leakable::*;
-        (proptest::sample::select(vec![ElemKind::Tr, ElemKind::Bx, ElemKind::U32]), prop_oneof![49 => 0u8..=14, 1 => 0u8..=60], prop_oneof![49 => 0u8..=14, 1 => 0u8..=60], any::<bool>(), proptest::sample::select(vec![DrainRow, DrainRow, DrainCol, DrainCol, DrainCol, PopRow, PopCol, Rows, RowsMut, Col, ColMut, Cells, CellsMut, View, ViewMut, IntoIter]), 0u8..14, 0u8..16, 0u8..16)
+        let small = (proptest::sample::select(vec![ElemKind::Tr, ElemKind::Bx, ElemKind::U32, ElemKind::W40, ElemKind::U128]), prop_oneof![49 => 0u8..=14, 1 => 0u8..=60], prop_oneof![49 => 0u8..=14, 1 => 0u8..=60], any::<bool>(), proptest::sample::select(vec![DrainRow, DrainRow, DrainCol, DrainCol, DrainCol, PopRow, PopCol, Rows, RowsMut, Col, ColMut, Cells, CellsMut, View, ViewMut, IntoIter]), 0u8..14, 0u8..16, 0u8..16)
             .prop_map(|(elem, cols, rows, exact_cap, what, at, front, back)| {
                 let (cols, rows) = if cols == 0 || rows == 0 { (0, 0) } else { (cols, rows) };
                 LeakCase { elem, cols, rows, exact_cap, what, at, front, back }
-            })
-            .boxed()
+            });
+        // arrays of more than a megabyte (plain element types only)
+        let big = (proptest::sample::select(vec![ElemKind::U32, ElemKind::W40, ElemKind::W40, ElemKind::U128]), 160u8..=255, 160u8..=255, any::<bool>(), proptest::sample::select(vec![DrainRow, DrainRow, DrainCol, DrainCol, PopRow, PopCol, RowsMut, ColMut, CellsMut, ViewMut, IntoIter]), 0u8..=255, 0u8..16, 0u8..16)
+            .prop_map(|(elem, cols, rows, exact_cap, what, at, front, back)| LeakCase { elem, cols, rows, exact_cap, what, at, front, back });
+        prop_oneof![400 => small, 1 => big].boxed()
     }
     fn fuzz_sanitize(k: &mut LeakCase) -> bool {
         k.cols %= 15;
@@ -913,6 +949,8 @@ impl Prop for C12 {
             ElemKind::U32 => run_leak::<u32>(k, ctx),
             ElemKind::U128 => run_leak::<u128>(k, ctx),
             ElemKind::B3 => run_leak::<crate::elem::B3>(k, ctx),
+            ElemKind::Nd => run_leak::<crate::elem::Nd>(k, ctx),
+            ElemKind::W40 => run_leak::<crate::elem::W40>(k, ctx),
             ElemKind::Bx => run_leak::<Bx>(k, ctx),
             ElemKind::Zs => run_leak::<Zs>(k, ctx),
         }
